@@ -79,6 +79,9 @@ for _ty, _lens in (("u64", ((2, "quick"), (3, "quick"), (4, "thorough"), (5, "th
 H("G-HEX-rle", "rle_loader_item_count_no_overflow", "C35 C15 C17", "a null run of ANY count >= 1 followed by a repeat run of ANY count in 2..=i64::MAX (what the decoder can hand over), through the loader's own guard + bookkeeping; loop-free",
   "RleLoadIter's per-slab item count (CutState::check_len + track) never overflows: an oversized segment is refused")
 
+H("G-HEX-rle", "rle_ten_byte_run_header_total", "C35 C15", "EVERY 12-byte slab that starts with a 10-byte signed varint run header (any value, incl. i64::MIN / i64::MAX); unwind 13",
+  "rle_validate_encoding and RleDecoder::try_next_segment answer without arithmetic overflow (the literal-run count is |n|, not -n)", timeout=900)
+
 group("G-HEX-bool", "hexane", "hx_bool.rs", "bool",
       ["bool::bool_validate_encoding::<Leb128>", "bool::BoolDecoder::{new,next,nth,advance_run}", "codec::Codec::read_count"],
       stubs=["<Leb128 as Codec>::{read_unsigned,read_signed,try_read_unsigned,try_read_signed} -> reference readers (see G-HEX-rle)", "alloc::fmt::format -> empty String"],
